@@ -196,6 +196,10 @@ struct Discards(World);
 impl DiscardHandler<Key, JobMsg> for Discards {
     fn discard(&self, reason: DiscardReason, job: &mut Job<Key, JobMsg>) {
         self.0.log(Ev::Discard { reason: format!("{reason:?}"), id: job.msg.id });
+        // a discard callback does real work: 2 us of (virtual) time pass while an expired job is written off
+        if matches!(reason, DiscardReason::TtlExpired) {
+            vsched::burn(Duration::from_micros(2));
+        }
         // armed by the script: the worker dies right now, i.e. while the factory is in the middle of the
         // handler that discards this job (and before it dispatches the next one)
         let armed = self.0.armed.lock().unwrap().take();
@@ -219,7 +223,7 @@ impl FactoryStatsLayer for Stats {
         // (short TTLs carry it in their microseconds)
         let id = options
             .ttl()
-            .map(|t| if t.as_millis() < 1000 { (t.as_micros() as u64).saturating_sub(100_000) as u32 } else { (t.as_millis() as u64).saturating_sub(TTL_BASE_MS) as u32 })
+            .map(|t| if t.as_millis() < 1000 { (100_005u64.saturating_sub(t.as_micros() as u64) / 2) as u32 } else { (t.as_millis() as u64).saturating_sub(TTL_BASE_MS) as u32 })
             .unwrap_or(u32::MAX);
         self.0.log(Ev::Completed { id });
     }
@@ -443,6 +447,9 @@ pub enum Event {
     Kill(usize),
     KillAfterFinished(usize),
     Resize(usize),
+    /// a request for a pool of ZERO workers (true: through UpdateSettings.worker_count, false: AdjustWorkerPool):
+    /// documented as ignored, the pool keeps the last non-zero size
+    ResizeZero(bool),
     Drain,
     Advance,
     /// UpdateSettings: a new static discard limit (same mode)
@@ -636,6 +643,8 @@ pub async fn run(cfg: Cfg) -> Run {
                 "R1" => Event::Resize(1),
                 "R2" => Event::Resize(2),
                 "R3" => Event::Resize(3),
+                "Z0" => Event::ResizeZero(false),
+                "Z1" => Event::ResizeZero(true),
                 "DR" => Event::Drain,
                 "A" => Event::Advance,
                 "ARM0" => Event::ArmKillOnDiscard(0),
@@ -666,7 +675,10 @@ pub async fn run(cfg: Cfg) -> Run {
                 // (with a priority queue the short TTL goes to the urgent key: it expires at the head of the queue
                 // while jobs of the other key wait behind it)
                 let short = cfg.ttl && key == if cfg.queue == QueueKind::Default { 0 } else { 1 };
-                let ttl = if short { Duration::from_micros(100_000 + id as u64) } else { Duration::from_millis(TTL_BASE_MS + id as u64) };
+                // (short TTLs straddle the factory's first periodic sweep at 100 ms, later jobs expiring EARLIER: job 2
+                // has 1 us to live at that moment, job 3 expired 1 us ago, job 4 3 us ago; the discard callback of an
+                // expired job takes 2 us (see Discards), so a job further up the queue expires while the sweep runs)
+                let ttl = if short { Duration::from_micros(100_005u64.saturating_sub(2 * id as u64)) } else { Duration::from_millis(TTL_BASE_MS + id as u64) };
                 let job = Job { key, msg: JobMsg { id, guard: DropGuard { id, world: world.clone() } }, options: JobOptions::new(Some(ttl)), accepted: Some(tx.into()) };
                 let lc = vsched::stamp();
                 let r = f.cast(FactoryMessage::Dispatch(job));
@@ -709,6 +721,13 @@ pub async fn run(cfg: Cfg) -> Run {
                     let _ = f.cast(FactoryMessage::UpdateSettings(UpdateSettingsRequest::builder().worker_count(n).build()));
                 } else {
                     let _ = f.cast(FactoryMessage::AdjustWorkerPool(n));
+                }
+            }
+            Event::ResizeZero(via_settings) => {
+                if via_settings {
+                    let _ = f.cast(FactoryMessage::UpdateSettings(UpdateSettingsRequest::builder().worker_count(0).build()));
+                } else {
+                    let _ = f.cast(FactoryMessage::AdjustWorkerPool(0));
                 }
             }
             Event::SetLimit(l) => {
@@ -964,6 +983,18 @@ pub fn plan(property: &'static str, tier: &str) -> Plan {
                 Cfg { routing: r, discard: Discard::None, workers: 1, depth: script.split(',').count(), ttl: true, lean: true, burst: false, queue: QueueKind::Default, set_limit: false, flow_only: false, fine_deaths: false, script: Some(script), slow_stops: false, late_handler: false },
                 if thorough { 2 } else { 1 },
             ));
+        }
+    }
+    // scripted histories with requests for a pool of zero workers (ignored: the pool keeps its size and goes on
+    // running jobs), through both entry points, before / between / after ordinary resizes
+    if property == "C15" || thorough {
+        for r in [Routing::Queuer, Routing::KeyPersistent] {
+            for script in ["Z1,D0,D1,C0", "D0,Z0,D1,C0,C1", "R1,Z1,D0,D0,C0", "D0,D1,Z1,C0,C1,D0", "Z0,R3,Z1,D0"] {
+                cfgs.push((
+                    Cfg { routing: r, discard: Discard::None, workers: 2, depth: script.split(',').count(), ttl: false, lean: true, burst: false, queue: QueueKind::Default, set_limit: false, flow_only: false, fine_deaths: false, script: Some(script), slow_stops: false, late_handler: false },
+                    if thorough { 1 } else { 0 },
+                ));
+            }
         }
     }
     // a worker that lingers in post_stop (told to stop from outside): unavailable but not yet reported dead
